@@ -106,6 +106,7 @@ class C15(HsProp):
 
 class C16(HsProp):
     id = 'C16'
+    props_files = ['C16', 'C16b']
     rule = ('client: URIs (userinfo with 0/1/2+ @, ports, IPv6, paths, bad schemes), subprotocol lists, extra headers; responses with every element missing/altered and '
             'every single-character change of the accept value (28 positions x 4 letters); head/frame boundary at every segmentation; distinct by (outcome, case)')
     level_text = 'request serialiser, Host rule, verify_response and tail hand-over modelled and proved; response/URI parsing are oracles'
